@@ -783,7 +783,11 @@ def normalize(F):
     for b in list(F.bodies):
         if b.kind not in ("Fn", "AssocFn", "Closure", "SyntheticCoroutineBody"):
             continue
-        nb = N.norm(b)
+        try:
+            nb = N.norm(b)
+        except Exception as ex:   # noqa - a body that cannot be normalised is analysed as written
+            N.log.append((b.def_, "normalise-error", repr(ex)[:120]))
+            nb = b
         if nb is not b:
             repl[b.def_] = nb
     F.originals = {}
